@@ -1,5 +1,6 @@
 import TypifyModel.Proofs.C04
 import TypifyModel.Proofs.Tagging
+import TypifyModel.Proofs.TaggingComplete
 #print axioms TypifyModel.C04.wire_exchange
 #print axioms TypifyModel.C04.wire_exchange_de
 #print axioms TypifyModel.C04.wire_exchange_B
@@ -7,6 +8,9 @@ import TypifyModel.Proofs.Tagging
 #print axioms TypifyModel.WireEq.de_ty
 #print axioms TypifyModel.WireEq.dflt_ty
 #print axioms TypifyModel.Tagging.intTag_sound
+#print axioms TypifyModel.Tagging.intTag_complete
+#print axioms TypifyModel.Tagging.intTag_exact
+#print axioms TypifyModel.Tagging.intTag_none_iff
 #print axioms TypifyModel.Tagging.tagged_branches_exclusive
 #print axioms TypifyModel.Tagging.external_names_nodup
 #print axioms TypifyModel.Tagging.adjacent_sound
